@@ -126,6 +126,7 @@ struct Plan {
     cancel_permille: u64,
     prepared_permille: u64,
     exhaust: bool,
+    big_requests: bool,
 }
 
 pub fn run(req: &RunRequest) -> Value {
@@ -139,6 +140,7 @@ pub fn run(req: &RunRequest) -> Value {
             prepared_permille: [0, 300, 1000][tape::choose("c02:prepared_rate", 3) as usize],
             // Rarely: fill the whole 32768-id space of the connection.
             exhaust: tape::chance("c02:exhaust", if thorough { 20 } else { 3 }, 1000),
+            big_requests: tape::chance("c02:big_requests", 1, 3),
         };
         let mut cluster = Cluster::new("c02");
         cluster.add_node("dc1", "r1", 0, vec![0]);
@@ -209,6 +211,7 @@ async fn main(plan: Plan, slow_permille: u64) -> Outcome {
     struct ReqPlan {
         marker: u64,
         prepared: bool,
+        pad: usize,
         /// None: run to completion. Some(None): drop before first poll.
         /// Some(Some(ns)): abandon after ns.
         cancel: Option<Option<u64>>,
@@ -245,6 +248,10 @@ async fn main(plan: Plan, slow_permille: u64) -> Outcome {
             reqs.push(ReqPlan {
                 marker: idx * 16 + flags,
                 prepared: tape::chance("c02:prepared", plan.prepared_permille, 1000),
+                // A request frame larger than the connection's write buffer (the statement
+                // text is padded with leading whitespace): written in several pieces, with
+                // back-pressure possible in the middle of it.
+                pad: if plan.big_requests && tape::chance("c02:big_request", 1, 6) { tape::range("c02:pad", 8_000, 40_000) as usize } else { 0 },
                 cancel,
                 gap: [0, 0, 1, 200_000, 5 * MS][tape::choose("c02:gap", 5) as usize],
             });
@@ -263,7 +270,10 @@ async fn main(plan: Plan, slow_permille: u64) -> Outcome {
                     if r.prepared {
                         session.execute_unpaged(&prepared, (t as i64, m as i64)).await
                     } else {
-                        session.query_unpaged(client::q_marker(m), ()).await
+                        if r.pad > 0 {
+                            world::world().probe("big_request_sent");
+                        }
+                        session.query_unpaged(format!("{}{}", " ".repeat(r.pad), client::q_marker(m)), ()).await
                     }
                 };
                 let res = match r.cancel {
